@@ -217,8 +217,8 @@ def correspondence(ctx):
                         "order": "has_cdf,has_ppf,analytic,pdf,cdf,ppf,known-class"})
 
     # -- (d) the formulas
-    nrand = ctx.scale(3, 30)
-    nx = ctx.scale(12, 60)
+    nrand = ctx.scale(4, 40)
+    nx = ctx.scale(16, 60)
     ops, refs = [], []
     for cls in MODELLED:
         for d in (1, 2, 3):
@@ -594,10 +594,16 @@ def pdf_search(ctx, n_random, viol):
                     # spectrum = var * density (exact: one multiplication)
                     if not np.array_equal(spec, dens * m.var, equal_nan=True):
                         viol.append({"key": f"spectrum-def:{cls}", "what": "spectrum != var * spectral_density", "case": case})
-                    if not np.isfinite(dens).all():
-                        i = int(np.argmin(np.isfinite(dens)))
-                        viol.append({"key": f"density-nonfinite:{cls}", "what": "spectral_density is NaN/inf at a finite wave number",
-                                     "case": dict(case, k=float(k[i]), k_len=float(k[i] * ell), reported=repr(dens[i]))})
+                    wide = np.geomspace(1e-9, 1e9, 109) / ell if cls in ANALYTIC else k
+                    wd = np.concatenate([dens, np.asarray(m.spectral_density(wide), dtype=float)])
+                    wk = np.concatenate([k, wide])
+                    ev += len(wide)
+                    if not np.isfinite(wd).all():
+                        i = int(np.argmin(np.isfinite(wd)))
+                        big = cls == "TPLExponential" and wk[i] * ell >= 1e5
+                        viol.append({"key": "spectrum:TPLExponential-large-k" if big else f"density-nonfinite:{cls}",
+                                     "what": "spectral_density is NaN/inf at a finite wave number (probed on k*len in [1e-9, 1e9])",
+                                     "case": dict(case, k=float(wk[i]), k_len=float(wk[i] * ell), reported=repr(wd[i]))})
                     # definition of the radial pdf from the independent surface-area formula
                     import scipy.special as sps
                     area = 2 * np.pi ** (d / 2) / sps.gamma(d / 2) * k ** (d - 1)
@@ -615,9 +621,19 @@ def pdf_search(ctx, n_random, viol):
                             viol.append({"key": f"ln-rad-pdf:{cls}", "what": "ln_spectral_rad_pdf != log(spectral_rad_pdf)", "case": case})
                     # non-negativity of the density itself
                     peak = np.max(np.abs(dens))
-                    lim = 0.0 if cls in ANALYTIC else -0.15 * peak
+                    lim = -1e-13 * peak if cls in ANALYTIC else -0.15 * peak   # rounding of the TPL difference of two scales
                     if (dens < lim).any():
                         viol.append({"key": f"density-sign:{cls}", "what": "spectral density negative", "case": dict(case, k=k.tolist(), density=dens.tolist())})
+                    if cls == "TPLExponential":
+                        for kl in (1e2, 1e5, 1e6, 1e7):
+                            got = float(m.spectral_density(np.array([kl / ell]))[0])
+                            want = _tplexp_mp_density(m, d, kl / ell)
+                            ev += 1
+                            if not abs(got - want) <= 1e-6 * abs(want):
+                                viol.append({"key": "spectrum:TPLExponential-large-k" if kl >= 1e5 else "spectrum:TPLExponential",
+                                             "what": "tpl_exp_spec_dens differs from its own closed form evaluated with mpmath "
+                                                     "(scipy hyp2f1 near argument 1): relative error > 1e-6",
+                                             "case": dict(case, k=kl / ell, k_len=kl, reported=got, closed_form_mpmath=want)})
                     # normalisation of the radial pdf
                     total, tol, kind = _pdf_mass(m, cls, d, ell)
                     if total is not None:
@@ -631,7 +647,7 @@ def pdf_search(ctx, n_random, viol):
                                 import scipy.special as sps
                                 if sps.gamma(m.nu - d / 2 + 1) > 100.0:
                                     key = "spectrum:JBessel-gamma-cut"
-                            probe = np.asarray(m.spectral_density(np.geomspace(1e-8, 1e-2, 80) / ell), dtype=float)
+                            probe = np.asarray(m.spectral_density(np.geomspace(1e-9, 1e9, 217) / ell), dtype=float)
                             if not np.isfinite(probe).all():
                                 key = f"density-nonfinite:{cls}"
                             viol.append({"key": key, "what": f"integral of spectral_rad_pdf = {total!r}, expected 1 (tol {tol})",
@@ -675,6 +691,26 @@ def pdf_search(ctx, n_random, viol):
     return ev, worst_int
 
 
+def _tplexp_mp_density(m, d, k):
+    """tpl_exp_spec_dens re-evaluated with mpmath (50 digits): scipy's hyp2f1 loses accuracy / overflows for its
+    argument z/(1+z) -> 1, i.e. k*len >~ 1e5"""
+    import mpmath as mp
+    H = mp.mpf(float(m.hurst))
+
+    def one(L):
+        L = mp.mpf(float(L))
+        z = (mp.mpf(float(k)) * L) ** 2
+        a, b, c, e = H + mp.mpf(d) / 2, H + mp.mpf(1) / 2, H + mp.mpf(d) / 2 + 1, mp.mpf(d) / 2 + mp.mpf(1) / 2
+        fac = L ** d * H * mp.gamma(e) / (mp.pi ** e * a)
+        return fac / (1 + z) ** a * mp.hyp2f1(a, b, c, z / (1 + z))
+    with mp.workdps(50):
+        if np.isclose(m.len_low_rescaled, 0.0):
+            return float(one(m.len_rescaled))
+        up, lo = m.len_up_rescaled, m.len_low_rescaled
+        fu, fl = mp.mpf(float(up)) ** (2 * H), mp.mpf(float(lo)) ** (2 * H)
+        return float((fu * one(up) - fl * one(lo)) / (fu - fl))
+
+
 def _pdf_mass(m, cls, d, ell):
     """(integral of the radial pdf over (0, inf), tolerance, kind) or (None, ...) when not attempted.
     For d > 1 the code zeroes the pdf on the absolute band k <= 1e-8; the mass of that band (which matters only for
@@ -714,6 +750,14 @@ def _pdf_mass(m, cls, d, ell):
     if d > 1 and lo < 1e-8:
         total += log_integral(raw, lo, 1e-8, per_decade=per)
         lo = np.nextafter(1e-8, 1.0)
+    if cls == "TPLExponential":
+        # the code's density is unusable for k*len >~ 1e5 (reported separately as spectrum:TPLExponential-large-k):
+        # integrate the code's pdf up to 1e4/len and the same closed form, evaluated with mpmath, beyond
+        K = 1e4 / ell
+        top = 10.0 ** (4.0 + 6.5 / (2.0 * min(m.hurst, 0.5))) / ell
+        tail = log_integral(lambda kk: np.array([area * x ** (d - 1) * _tplexp_mp_density(m, d, x) for x in kk]), K, top,
+                            per_decade=1)
+        return total + log_integral(pdf, lo, K, per_decade=per) + tail, tol, "analytic"
     total += log_integral(pdf, lo, hi, breaks=breaks, per_decade=per)
     return total, tol, "analytic"
 
@@ -744,7 +788,7 @@ def mechanism_search(ctx, viol):
 
 def search(ctx, deep=False):
     viol = []
-    n_random = ctx.scale(1, 8) * (2 if deep else 1)
+    n_random = ctx.scale(2, 10) * (2 if deep else 1)
     ks_rel = ctx.scale([0.05, 0.4, 1.3, 3.5, 8.0], [0.05, 0.1, 0.25, 0.5, 0.9, 1.3, 2.0, 3.5, 5.5, 8.0])
     ev_a, worst = fourier_pair_search(ctx, n_random, ks_rel, viol)
     ctx.log(f"search A (Fourier pair) {ev_a} evaluations, worst errors {worst}")
